@@ -188,12 +188,18 @@ def pool_messages():
 def fold(ns, ro_text, msg_texts, strict, check_unchanged=None):
     """ro = roCreate; for m in order: ro += fresh parse(m).  Returns dict(result text, exception,
     failed indexes, other mosromgr warnings, n_nonstrict)."""
-    ro = ns.mt.MosFile.from_string(ro_text)
+    try:
+        ro = ns.mt.MosFile.from_string(ro_text)
+    except Exception as e:  # noqa
+        return {'text': None, 'exc': 'PARSE:' + type(e).__name__, 'failed': [], 'warns': []}
     failed = []
     other = []
     exc = None
     for k, t in enumerate(msg_texts):
-        m = ns.mt.MosFile.from_string(t)
+        try:
+            m = ns.mt.MosFile.from_string(t)
+        except Exception as e:  # noqa
+            return {'text': str(ro), 'exc': f'PARSE[{k}]:' + type(e).__name__, 'failed': failed, 'warns': other}
         before = str(ro) if check_unchanged is not None else None
         with warnings.catch_warnings(record=True) as w:
             warnings.simplefilter('always')
